@@ -79,12 +79,13 @@ def wellcond_mesh(pmin, pmax, cell, tf):
     return out
 
 
-def sym_mesh(E, ndim, prefix='m', nsub=0, bc='', assume=None, dims=None, units=None, tf=None, cellcond=False):
+def sym_mesh(E, ndim, prefix='m', nsub=0, bc='', assume=None, dims=None, units=None, tf=None, cellcond=False, corners='float'):
     """Mesh satisfying Inv(Mesh); state parametrised by (pmin, cell, n): pmax := pmin + n*cell, so that
     cell*n == edges holds by construction; subregions by integer lattice coordinates 0 <= a < b <= n."""
     assume = assume if assume is not None else []
-    pmin = [inp(E, f'{prefix}_pmin{j}', 'float', True) for j in range(ndim)]
-    cell = [inp(E, f'{prefix}_cell{j}', 'float', True) for j in range(ndim)]
+    # corners='int': integer-typed corner arrays (int64 region), integer cell sizes - the dtype-sensitive configurations
+    pmin = [inp(E, f'{prefix}_pmin{j}', corners, True) for j in range(ndim)]
+    cell = [inp(E, f'{prefix}_cell{j}', corners, True) for j in range(ndim)]
     n = [inp(E, f'{prefix}_n{j}', 'int', True) for j in range(ndim)]
     for c, k in zip(cell, n):
         assume += [R(c) > 0, I(k) >= 1]
@@ -101,7 +102,7 @@ def sym_mesh(E, ndim, prefix='m', nsub=0, bc='', assume=None, dims=None, units=N
         assume += wellcond_mesh(pmin, pmax, cell, tf)
     dims = tuple(dims or DIMS[:ndim])
     units = tuple(units or UNITS[:ndim])
-    reg = Obj('Region', {'_pmin': Vec(pmin), '_pmax': Vec(pmax), '_dims': dims, '_units': units, '_tolerance_factor': tf})
+    reg = Obj('Region', {'_pmin': Vec(pmin, corners), '_pmax': Vec(pmax, corners), '_dims': dims, '_units': units, '_tolerance_factor': tf})
     subs = {}
     ghost = {}
     for si in range(nsub):
